@@ -205,6 +205,8 @@ where
 
     fn initialize_vring(&self, vring: &T::Vring, index: u8) -> VhostUserResult<()> {
         vring.set_queue_ready(true);
+        #[cfg(feature = "verif-hooks")]
+        vhost::verif::hit("c.after_state", &[5, index as u64]);
         self.update_vring_registration(vring, index)
     }
 
@@ -241,6 +243,8 @@ where
                 }
             }
         }
+        #[cfg(feature = "verif-hooks")]
+        vhost::verif::hit("c.after_ctl", &[index as u64]);
         Ok(())
     }
 
@@ -278,6 +282,8 @@ where
         // Disable all vrings
         for (index, vring) in self.vrings.iter().enumerate() {
             vring.set_enabled(false);
+            #[cfg(feature = "verif-hooks")]
+            vhost::verif::hit("c.after_state", &[3, index as u64]);
             self.update_vring_registration(vring, index as u8)?;
         }
 
@@ -311,6 +317,8 @@ where
         if self.acked_features & VhostUserVirtioFeatures::PROTOCOL_FEATURES.bits() == 0 {
             for (index, vring) in self.vrings.iter().enumerate() {
                 vring.set_enabled(true);
+                #[cfg(feature = "verif-hooks")]
+                vhost::verif::hit("c.after_state", &[4, index as u64]);
                 self.update_vring_registration(vring, index as u8)?;
             }
         }
@@ -453,11 +461,15 @@ where
         // VHOST_USER_SET_VRING_KICK, and stop ring upon receiving
         // VHOST_USER_GET_VRING_BASE.
         vring.set_queue_ready(false);
+        #[cfg(feature = "verif-hooks")]
+        vhost::verif::hit("c.after_state", &[2, index as u64]);
         self.update_vring_registration(vring, index as u8)?;
 
         let next_avail = vring.queue_next_avail();
 
         vring.set_kick(None);
+        #[cfg(feature = "verif-hooks")]
+        vhost::verif::hit("c.after_dropkick", &[index as u64]);
         vring.set_call(None);
 
         Ok(VhostUserVringState::new(index, u32::from(next_avail)))
@@ -474,6 +486,8 @@ where
         // Ideally, we'd have a generic way to refer to a uniquely-owned fd,
         // such as that proposed by Rust RFC #3128.
         vring.set_kick(file);
+        #[cfg(feature = "verif-hooks")]
+        vhost::verif::hit("c.after_setkick", &[index as u64]);
 
         if self.vring_needs_init(vring) {
             self.initialize_vring(vring, index)?;
@@ -539,6 +553,8 @@ where
         // or after it has been disabled by VHOST_USER_SET_VRING_ENABLE
         // with parameter 0.
         vring.set_enabled(enable);
+        #[cfg(feature = "verif-hooks")]
+        vhost::verif::hit("c.after_state", &[enable as u64, index as u64]);
         self.update_vring_registration(vring, index as u8)?;
 
         Ok(())
